@@ -629,7 +629,7 @@ def run(tier, seed):
     deductive(res, agg)
     # models that wrap an inner EOF (ExtendedEOF, OPA, bootstrap members) must hand solver, seed and pass-through options on
     from props.C07 import deductive_inner_models
-    deductive_inner_models(res, agg)
+    deductive_inner_models(res, agg, aspects=("solver",))
     agg.flush()
     run_bounded(res, tier, seed)
     return res
